@@ -207,12 +207,18 @@ struct SelInfo {
     text: String,
     key: LeadKey,
     feat: Feat,
+    shape: String,
 }
 
 impl SelInfo {
     fn new(text: &str) -> SelInfo {
         let (key, feat) = leading_key(text);
-        SelInfo { text: text.to_string(), key, feat }
+        let mut s = SelInfo { text: text.to_string(), key, feat, shape: String::new() };
+        s.shape = s.compute_shape();
+        s
+    }
+    fn shape(&self) -> &str {
+        &self.shape
     }
     fn keyed(&self) -> Option<(Kind, &str, bool)> {
         match &self.key {
@@ -221,7 +227,7 @@ impl SelInfo {
         }
     }
     /// Structural description used in signatures.
-    fn shape(&self) -> String {
+    fn compute_shape(&self) -> String {
         match &self.key {
             LeadKey::Keyed { kind, simple, .. } => format!(
                 "{}.{}.{}",
@@ -728,7 +734,7 @@ fn compare_hide(
     for g in got.difference(expected) {
         l.hist("site:SPURIOUS-selector");
         let shape = match list.iter().find(|s| &s.text == g) {
-            Some(s) => s.shape(),
+            Some(s) => s.shape().to_string(),
             None => match list.iter().find(|s| s.unescaped_spelling().as_deref() == Some(g.as_str())) {
                 Some(s) => format!("unescaped-spelling-of.{}", s.shape()),
                 None => "text-of-no-rule".to_string(),
@@ -741,7 +747,7 @@ fn compare_hide(
     false
 }
 
-/// Route 2 for every URL, then the partition clause. Returns false if the engine is unusable.
+/// Route 2 for every URL, then the partition clause.
 fn check_routes(u: &Universe, engine: &Engine, list: &[&SelInfo], l: &mut Local) {
     let case = json!({"kind":"routes","list":list_json(list)});
     let expected_misc = misc_of(list);
@@ -965,11 +971,14 @@ fn explore_outside(u: &Universe, list: &[&SelInfo], l: &mut Local) -> Option<Str
     let body: Vec<char> = g.chars().skip(1).collect();
     for n in 1..=body.len() {
         let p: String = body[..n].iter().collect();
-        if !all.contains(&p) {
-            all.push(p);
+        let q = p.replace('\\', "");
+        for cand in [p, q] {
+            if !all.contains(&cand) {
+                all.push(cand);
+            }
         }
     }
-    let mut behaviour = "dropped".to_string();
+    let mut behaviour = "returned for no probed name and absent from hide_selectors".to_string();
     for n in &all {
         for as_class in [true, false] {
             l.evaluations += 1;
@@ -1115,7 +1124,8 @@ fn check(ctx: &Ctx) -> i32 {
     ctx.bound("outside_domain_selectors", json!(u.outside.iter().map(|s| s.text.clone()).collect::<Vec<_>>()));
     ctx.bound("lookup_result_compared_as", "set");
 
-    // seahash is used for hostnames only on this path; class / id names are compared as strings.
+    // (no hash-collision precondition: class / id names and selectors are compared as strings;
+    // seahash is only applied to the fixed hostnames `ex.com` / `other.org` of sweep E)
     ctx.par_range("lists", combos.len() as u64, 8, |i, l| {
         let combo = &combos[i as usize];
         let list: Vec<&SelInfo> = combo.slice().iter().map(|&j| &u.sels[j as usize]).collect();
